@@ -100,8 +100,8 @@ Proof.
   intros Hi HK. rewrite <- !Z.shiftr_div_pow2 by lia. rewrite <- !Z.land_ones by lia.
   apply Z.bits_inj'. intros m Hm. rewrite !Z.land_spec, !Z.shiftr_spec by lia.
   destruct (Z.ltb_spec m 8) as [L|L].
-  - rewrite Z.mod_pow2_bits_low by lia. reflexivity.
-  - rewrite Z.ones_spec_high by lia. now rewrite !andb_false_r.
+  - rewrite Z.land_spec, (Z.ones_spec_low K) by lia. now rewrite andb_true_r.
+  - rewrite (Z.ones_spec_high 8) by lia. now rewrite !andb_false_r.
 Qed.
 
 Lemma be_shift k n : map Z.of_N (be k (wrapu (8 * N.of_nat k) n)) =
